@@ -200,10 +200,16 @@ Definition remove_script (id : N) (l : list script) : list script :=
 Definition mark_used (id : N) (l : list script) : list script :=
   map (fun x => if N.eqb id (s_id x) then mkS (s_id x) (s_gen x) true else x) l.
 
-(* Environment._get_subprocess: keep a helper that is not crashed, else start the next one
-   and ask it for its version; any exception there becomes InvalidPythonEnvironment and the
-   (crashed) new helper stays in place *)
-Definition get_subprocess (fx : bool) (sched : N -> N -> fault) (s : st)
+(* Environment._get_subprocess on an environment that already has a helper: keep it if it is
+   not crashed, else start the next one and ask it for its version.  `hx` = the code as it is
+   now: the helper being started replaces one that had answered the handshake before, so an
+   InternalError there is re-raised as it is (any other exception still becomes
+   InvalidPythonEnvironment); hx = false is the code before that fix, where every exception
+   became InvalidPythonEnvironment.  The (crashed) new helper stays in place. *)
+Definition hand_exc (hx : bool) (e : exc) : exc :=
+  if hx then match e with EInternal => EInternal | _ => EInvalidEnv end else EInvalidEnv.
+
+Definition get_subprocess (hx fx : bool) (sched : N -> N -> fault) (s : st)
   : st * option exc * nat * list wire :=
   if negb (h_crashed (cur s)) then (s, None, 0, [])
   else
@@ -211,8 +217,17 @@ Definition get_subprocess (fx : bool) (sched : N -> N -> fault) (s : st)
     match send fx sched nh KInfo with
     | (h1, r, n, w) =>
         (mkSt h1 (cur s :: old s) (scripts s) (syspath s),
-         match r with SReply _ => None | SRaise _ => Some EInvalidEnv end, n, w)
+         match r with SReply _ => None | SRaise e => Some (hand_exc hx e) end, n, w)
     end.
+
+(* Environment.__init__: the first helper of an environment (there is no helper yet, so this is
+   not a restart): any failure of its handshake is InvalidPythonEnvironment and no Environment
+   object comes into being. *)
+Definition start_env (fx : bool) (sched : N -> N -> fault) : (st + exc) * helper * list wire :=
+  match send fx sched (fresh_helper 1%N) KInfo with
+  | (h1, SReply _, _, w) => (inl (mkSt h1 [] [] false), h1, w)
+  | (h1, SRaise _, _, w) => (inr EInvalidEnv, h1, w)
+  end.
 
 Inductive op :=
 | OpNew (id : N)                     (* InferenceState(...): environment.get_inference_state_subprocess *)
@@ -229,13 +244,13 @@ Record ev := mkEv {
   e_wire : list wire
 }.
 
-Definition step (fx : bool) (sched : N -> N -> fault) (s : st) (o : op) : st * ev :=
+Definition step (hx fx : bool) (sched : N -> N -> fault) (s : st) (o : op) : st * ev :=
   match o with
   | OpNew id =>
       match find_script id (scripts s) with
       | Some _ => (s, mkEv ONoScript 0 false false [])
       | None =>
-          match get_subprocess fx sched s with
+          match get_subprocess hx fx sched s with
           | (s1, Some e, n, w) => (s1, mkEv (OExc e) n false true w)
           | (s1, None, n, w) =>
               (mkSt (cur s1) (old s1) (mkS id (h_gen (cur s1)) false :: scripts s1) (syspath s1),
@@ -277,7 +292,7 @@ Definition step (fx : bool) (sched : N -> N -> fault) (s : st) (o : op) : st * e
   | OpSysPath =>
       if syspath s then (s, mkEv (OOk []) 0 false false [])
       else
-        match get_subprocess fx sched s with
+        match get_subprocess hx fx sched s with
         | (s1, Some e, n, w) => (s1, mkEv (OExc e) n false true w)
         | (s1, None, n, w) =>
             match send fx sched (cur s1) KNoId with
@@ -289,16 +304,17 @@ Definition step (fx : bool) (sched : N -> N -> fault) (s : st) (o : op) : st * e
         end
   end.
 
-Fixpoint run (fx : bool) (sched : N -> N -> fault) (s : st) (ops : list op) : st * list ev :=
+Fixpoint run (hx fx : bool) (sched : N -> N -> fault) (s : st) (ops : list op) : st * list ev :=
   match ops with
   | [] => (s, [])
   | o :: r =>
-      match step fx sched s o with
-      | (s1, e) => match run fx sched s1 r with (s2, es) => (s2, e :: es) end
+      match step hx fx sched s o with
+      | (s1, e) => match run hx fx sched s1 r with (s2, es) => (s2, e :: es) end
       end
   end.
 
-(* after a successful Environment(...): first helper started, handshake (request 0) done *)
+(* after a successful Environment(...): first helper started, handshake (request 0) done
+   (= what start_env yields when request 0 of generation 1 meets no fault) *)
 Definition init : st := mkSt (mkH 1%N false true false 1%N [] []) [] [] false.
 
 Definition no_faults : N -> N -> fault := fun _ _ => FNone.
@@ -388,14 +404,14 @@ Definition op_obs (s : st) (e : ev) : N * list N * N * bool * N * N :=
   (fst (outcome_obs (e_out e)), snd (outcome_obs (e_out e)), h_gen (cur s), h_crashed (cur s),
    N.of_nat (zombies s), N.of_nat (open_pipes s)).
 
-Fixpoint run_obs (fx : bool) (sched : N -> N -> fault) (s : st) (ops : list op)
+Fixpoint run_obs (hx fx : bool) (sched : N -> N -> fault) (s : st) (ops : list op)
   : list (N * list N * N * bool * N * N) * list (N * N * N * N * N * list N) :=
   match ops with
   | [] => ([], [])
   | o :: r =>
-      match step fx sched s o with
+      match step hx fx sched s o with
       | (s1, e) =>
-          match run_obs fx sched s1 r with
+          match run_obs hx fx sched s1 r with
           | (os, ws) => (op_obs s1 e :: os, map wire_obs (e_wire e) ++ ws)
           end
       end
@@ -429,5 +445,15 @@ Definition check_case (c : list (N * N * fault) * list op *
                            list (N * list N * N * bool * N * N) *
                            list (N * N * N * N * N * list N)) : bool :=
   let '(sch, ops, obs, wobs) := c in
-  let '(mo, mw) := run_obs true (sched_of sch) init ops in
+  let '(mo, mw) := run_obs true true (sched_of sch) init ops in
   all2 obs_eqb mo obs && all2 wobs_eqb (strip_before mw) (strip_before wobs).
+
+(* Environment(...) with a fault on the first handshake: observed (code, crashed flag of the
+   helper object, zombies, open pipe ends) *)
+Definition check_start (c : list (N * N * fault) * (N * N * N)) : bool :=
+  let '(sch, (code, z, p)) := c in
+  match start_env true (sched_of sch) with
+  | (inl s, h, _) => N.eqb code 0 && N.eqb z (N.of_nat (zombies s)) && N.eqb p (N.of_nat (open_pipes s))
+  | (inr e, h, _) => N.eqb code (exc_code e) && N.eqb z (if is_zombie h then 1 else 0) &&
+                     N.eqb p (if h_reaped h then 0 else 3)
+  end.
